@@ -217,6 +217,11 @@ func (nodes IndividualNodes) Similarity(other IndividualNodes, options Similarit
 func createPointerJobs(left, right IndividualNodes, options *IndividualNodesCompareOptions, totals chan int64, jobs chan *IndividualComparison) {
 	ws := options.ConcurrentJobs()
 
+	// The lookups are independent of each other, so they are shared between
+	// the workers. Each worker only writes the elements of its own left
+	// individuals.
+	matches := make([]*IndividualComparison, len(left))
+
 	util.WorkerPool(ws, func(w int) {
 		for leftI := w; leftI < len(left); leftI += ws {
 			a := left[leftI]
@@ -239,20 +244,39 @@ func createPointerJobs(left, right IndividualNodes, options *IndividualNodesComp
 
 			ss := a.SurroundingSimilarity(b, options.SimilarityOptions, true)
 			if ss.WeightedSimilarity() >= options.SimilarityOptions.PreferPointerAbove {
-				options.adjustTotal(totals)
-
-				jobs <- &IndividualComparison{
+				matches[leftI] = &IndividualComparison{
 					Left:         a,
 					Right:        b,
 					Similarity:   ss,
 					certainMatch: true,
 				}
-
-				options.sentA.Store(a.Pointer(), nil)
-				options.sentB.Store(b.Pointer(), nil)
 			}
 		}
 	})
+
+	// An individual can only be matched once. If several individuals on the
+	// left share a pointer, the first of them (in the order of the slice, not in
+	// the order the workers happened to finish) is matched and the others are
+	// left for the similarity comparisons.
+	for _, match := range matches {
+		if match == nil {
+			continue
+		}
+
+		if _, ok := options.sentA.Load(match.Left.Pointer()); ok {
+			continue
+		}
+
+		if _, ok := options.sentB.Load(match.Right.Pointer()); ok {
+			continue
+		}
+
+		options.adjustTotal(totals)
+		jobs <- match
+
+		options.sentA.Store(match.Left.Pointer(), nil)
+		options.sentB.Store(match.Right.Pointer(), nil)
+	}
 }
 
 func createUniqueJobs(left, right IndividualNodes, options *IndividualNodesCompareOptions, totals chan int64, jobs chan *IndividualComparison) {
